@@ -348,20 +348,30 @@ Proof.
 Qed.
 
 (** ** references (ObjectRef) against block labels (QualifyObjects) *)
-Lemma ObjectRef_qualified_sound specs o :
-  ObjectRef_qualified specs o = true -> qualifier_spec specs o = Some (q_schema o).
-Proof. unfold ObjectRef_qualified, qualifier_spec. intros ->. reflexivity. Qed.
-
-Lemma ObjectRef_qualified_except specs o :
-  schema_used specs (q_label o) = false ->
-  (ObjectRef_qualified specs o = true <-> qualifier_spec specs o <> None).
+(* after fix C20-qualify-objectref-schema-named *)
+Lemma ObjectRef_qualified_matches specs o :
+  (ObjectRef_qualified specs o = true <-> qualifier_spec specs o = Some (q_schema o)) /\
+  (ObjectRef_qualified specs o = false <-> qualifier_spec specs o = None).
 Proof.
-  unfold ObjectRef_qualified, qualifier_spec. intros ->. rewrite orb_false_r.
+  unfold ObjectRef_qualified, qualifier_spec.
+  destruct (conflictb specs o || schema_used specs (q_label o)); split; split; congruence.
+Qed.
+
+(* the code before the fix *)
+Lemma ObjectRef_qualified_before_fix_sound specs o :
+  ObjectRef_qualified_before_fix specs o = true -> qualifier_spec specs o = Some (q_schema o).
+Proof. unfold ObjectRef_qualified_before_fix, qualifier_spec. intros ->. reflexivity. Qed.
+
+Lemma ObjectRef_qualified_before_fix_except specs o :
+  schema_used specs (q_label o) = false ->
+  (ObjectRef_qualified_before_fix specs o = true <-> qualifier_spec specs o <> None).
+Proof.
+  unfold ObjectRef_qualified_before_fix, qualifier_spec. intros ->. rewrite orb_false_r.
   destruct (conflictb specs o); split; congruence.
 Qed.
 
-Lemma ObjectRef_qualified_refuted :
-  exists specs o, In o specs /\ ObjectRef_qualified specs o = false /\ qualifier_spec specs o = Some (q_schema o).
+Lemma ObjectRef_qualified_before_fix_refuted :
+  exists specs o, In o specs /\ ObjectRef_qualified_before_fix specs o = false /\ qualifier_spec specs o = Some (q_schema o).
 Proof. exists [QO 1 10; QO 2 10; QO 3 1], (QO 3 1). vm_compute. intuition. Qed.
 
 (** ** QualifyReferences *)
